@@ -48,11 +48,13 @@ package uu
 //@ lemma{C15} linePos(k int, o int): imp(k >= 0 && 0 <= o && o < 62, (62*k + o)%62 == o && (62*k + o)/62 == k)
 
 //@ func MaxEncodedLen(b) (n)
+//@   locals b
 //@   props C15
 //@   ensures never_underestimates: n >= encLen(len(b))
 //@   ensures formula: n == 63 * (1 + len(b)/45)
 
 //@ func MaxDecodedLen(b) (n)
+//@   locals b
 //@   props C15
 //@   ensures formula: n == 1 + (len(b)*16)/3
 //@   ensures at_least_the_input_length: n >= len(b)
@@ -61,6 +63,7 @@ package uu
 // (src and the old contents of dst are never written), and a failure returns
 // no buffer and an error.
 //@ func AppendDecode(dst, src) (res, err)
+//@   locals dst src lineN line nDec encLen offset nDecRem chunk i v i v err dec
 //@   props C15
 //@   modifies Mem(dst)
 //@   requires spare_capacity_of_dst_does_not_overlap_src: disjointSpare(dst, src)
@@ -132,6 +135,7 @@ package uu
 // AppendEncode: the result is the old dst followed by the Perl-compatible
 // encoding of src; neither src nor the old contents of dst are modified.
 //@ func AppendEncode(dst, src) (res)
+//@   locals dst src line chunk enc i v i
 //@   props C15
 //@   modifies Mem(dst)
 //@   requires spare_capacity_of_dst_does_not_overlap_src: disjointSpare(dst, src)
@@ -175,6 +179,7 @@ package uu
 // code: the decoder's universally quantified x is bound to the client's x, the
 // hypothesis H must then be established from the encoder's postconditions.
 //@ func verifRoundTrip(dst, x) (res, err)
+//@   locals dst x enc dec err
 //@   props C15
 //@   bind AppendDecode.x = x
 //@   before "dec, err := AppendDecode(dst, enc)": assert(len(enc) == elen(len(x)), "rt_encoding_has_the_specified_length"); assert(forallCell(enc, p, c, c == old(encByte(x, p))), "rt_every_cell_of_the_encoding_is_the_specified_byte"); assert(forall(p, 0 <= p && p < elen(len(x)), encByte(x, p) == old(encByte(x, p)), trig(encByte(x, p))), "rt_specification_reads_the_unchanged_input"); assert(forallCell(enc, p, c, c == encByte(x, p)), "rt_hypothesis_of_the_decoder_holds")
